@@ -45,7 +45,7 @@ def validate(instance, attrib, new_value):
         return new_value
 
     v = attrib.validator
-    if not v:
+    if v is None:
         return new_value
 
     v(instance, attrib, new_value)
